@@ -168,7 +168,7 @@ def gen_case(r, idx, profile):
     idrange = None
     if profile == 'ids' or r.random() < 0.12:
         lo = r.choice([1, 1, 2, 65533])
-        idrange = (lo, min(65535, lo + r.choice([0, 1, 2, 4])))
+        idrange = (lo, min(65534, lo + r.choice([0, 1, 2, 4])))
     cid = r.choice([b'c1', b'c1', b'c2', b'c3'])
     hdrkv = "auth=%d" % authon
     if creds:
